@@ -811,6 +811,58 @@ func runC14(c *Ctx) {
 		cs.Want = append(cs.Want, "hits=3")
 		add(cs)
 	}()
+	// (3b) more additions than the prune interval of the timer-less cache (every 256th addition removes the expired
+	// items): 300 certificates cached for 1h, then the responder goes down — every one of them is still answered from
+	// the cache, and an item that HAD expired before the pruning addition is not answered (C14_pruned_cache_refines:
+	// pruning is invisible).  Alone: every Cleanup of another validator flushes the process-wide table.
+	wg.Wait()
+	wg.Add(1)
+	go func() {
+		defer wg.Done()
+		cs := &c14Case{Name: "prune-interval-crossed"}
+		org := NewOrigin()
+		defer org.Close()
+		var down int32
+		var leaves []*Leaf
+		for i := 0; i < 300; i++ {
+			leaves = append(leaves, p.CA.IssueLeaf(LeafOpts{CN: fmt.Sprintf("c14-prune-%d", i), Serial: nextOCSPSerial(), OCSP: []string{org.URL("/r")}}))
+		}
+		short := p.CA.IssueLeaf(LeafOpts{CN: "c14-prune-short", Serial: nextOCSPSerial(), OCSP: []string{org.URL("/r")}})
+		serveSpec(org, "/r", p, leaves[0], func(int) (respSpec, bool) {
+			if atomic.LoadInt32(&down) == 1 {
+				return respSpec{}, false
+			}
+			return respSpec{Status: "good"}, true
+		})
+		vShort, err := NewValidator(VCfg{Mode: "ocsp_only", AIAStrict: true, CacheDuration: "300ms", NoCRLConfig: true})
+		mustNoErr(err)
+		defer vShort.Close()
+		v, err := NewValidator(VCfg{Mode: "ocsp_only", AIAStrict: true, CacheDuration: "1h", NoCRLConfig: true})
+		mustNoErr(err)
+		defer v.Close()
+		// the two validators share the process-wide table; the short-lived item expires before the 256th addition
+		first := classify(vShort.Verify(short.Cert, p.CA.Cert, p.Root.Cert))
+		time.Sleep(450 * time.Millisecond)
+		ok1 := 0
+		for _, l := range leaves {
+			if classify(v.Verify(l.Cert, p.CA.Cert, p.Root.Cert)) == "accept" {
+				ok1++
+			}
+		}
+		atomic.StoreInt32(&down, 1)
+		ok2 := 0
+		for _, l := range leaves {
+			if classify(v.Verify(l.Cert, p.CA.Cert, p.Root.Cert)) == "accept" {
+				ok2++
+			}
+		}
+		cs.Events = []string{"short-lived answer cached (300ms)", "300 certificates checked after it expired (good, cached 1h)", "responder down: the 300 again", "responder down: the expired one again"}
+		cs.Obs = []string{first, fmt.Sprintf("accepted=%d", ok1), fmt.Sprintf("accepted=%d", ok2), classify(vShort.Verify(short.Cert, p.CA.Cert, p.Root.Cert))}
+		// a cache that forgets early is sound: how many of the 300 are still cached is recorded, not judged
+		cs.Want = []string{"accept", "accepted=300", "*", "error"}
+		add(cs)
+	}()
+	wg.Wait()
 	wg.Add(1)
 	go func() {
 		defer wg.Done()
